@@ -542,6 +542,22 @@ func (p *parser) postfix() SExpr {
 			if n.k != "ident" {
 				panic(fmt.Errorf("field name expected at %d in %q", n.p, p.src))
 			}
+			if id, ok := x.(*SIdent); ok && p.isOp("(") {
+				// qualified call pkg.f(args)
+				p.next()
+				var args []SExpr
+				if !p.isOp(")") {
+					for {
+						args = append(args, p.expr())
+						if !p.accept(",") {
+							break
+						}
+					}
+				}
+				p.expect(")")
+				x = &SCall{id.Name + "." + n.v, args}
+				continue
+			}
 			x = &SField{x, n.v}
 		case p.isOp("["):
 			p.next()
